@@ -583,10 +583,14 @@ func (mi *muxInstance) search(req *httpprot.Request) *route {
 				continue
 			}
 
-			// The path can be put into the cache if it has no headers.
+			// The path can be put into the cache if it has no headers, and
+			// no earlier path with headers matched the same path and method
+			// (a request with other headers must be routed to that one).
 			if len(path.headers) == 0 {
-				r = &route{code: 0, path: path}
-				mi.putRouteToCache(req, r)
+				if !headerMismatch {
+					r = &route{code: 0, path: path}
+					mi.putRouteToCache(req, r)
+				}
 			} else if !path.matchHeaders(req) {
 				headerMismatch = true
 				continue
